@@ -101,6 +101,10 @@ def run(tier, out):
             model = gen.random_model(rng)
             if seed % 2:
                 fractional_starts(rng, model)
+                for sto in efx.names_of(model, "Storage"):     # defaults (0 TB, no base consumption) hide in-place additions
+                    model[sto]["inp"]["base_storage_need"] = [rng.choice([0.5, 2]), "TB"]
+                for sv in efx.names_of(model, "Server"):
+                    model[sv]["inp"]["base_ram_consumption"] = [rng.choice([2, 8]), "GB"]
             tid += 1
             log.clear()
             try:
@@ -152,6 +156,23 @@ def run(tier, out):
                                "inputs_changed": changed_inputs(i0, input_state(ns, h.live)),
                                "calc_changed": [list(x) for x in efx.diff(c0, calc_state(ns, h.live, names), names)]})
                 kinds_seen[kind] = kinds_seen.get(kind, 0) + 1
+                out.nontrivial.add((seed, seq))
+            # each update function run on its own: it may not alter any other value (its operands in particular)
+            names = sorted(efx.reachable(h.model))
+            pairs = [(n, a) for n in names for a in h.live[n].calculated_attributes]
+            rng.shuffle(pairs)
+            for n, a in (pairs if tier == "thorough" else pairs[:25]):
+                i0, c0 = input_state(ns, h.live), calc_state(ns, h.live, names)
+                note = "none"
+                try:
+                    ns.retrieve_update_function(h.live[n], a)()
+                except Exception as ex:   # noqa
+                    note = f"{type(ex).__name__}: {str(ex)[:80]}"
+                seq += 1
+                events.append({"tid": tid, "seq": seq, "ev": "Recompute", "seed": seed, "objs": [f"{n}.{a}"],
+                               "changed": [list(x) for x in efx.diff(c0, calc_state(ns, h.live, names), names)]
+                               + [[k, "<input>"] for k in changed_inputs(i0, input_state(ns, h.live))]
+                               + ([["<raised>", note]] if note != "none" else [])})
                 out.nontrivial.add((seed, seq))
         log.close()
         trace = wd + "/c18.ndjson"
